@@ -9,6 +9,9 @@ def add_obligations(pack, tier):
     K.bounded_types(pack, 'C17')
     from contracts import fn_main as MN
     run_contracts(pack, MN.items('C17'))
+    # a failed setup never opens the gate that lets routines run (andes.main.run_case tests System.is_setup)
+    from contracts import fn_sequence as Q
+    run_contracts(pack, [(Q.system_setup('C17'), None, Q.replay_failures)])
     from contracts.packutil import native_guard
     from contracts import bounded_failure as BFL
     fname = 'C17/andes/routines:PFlow.run;TDS.run;EIG.run/bounded:infeasible-or-inconsistent-inputs-are-reported-as-failures'
